@@ -152,10 +152,16 @@ fn build_compare_op(
             quote!(),
             quote! {
                 const _: () = {
+                    trait __EqCheck {
+                        fn __eq_check(&self);
+                    }
                     #[allow(clippy::double_parens)]
                     #[allow(unused_parens)]
-                    fn __eq_check #impl_g (__this: &#this_ty) #wheres {
-                        #body
+                    impl #impl_g __EqCheck for #this_ty #wheres {
+                        fn __eq_check(&self) {
+                            let __this = self;
+                            #body
+                        }
                     }
                 };
             },
